@@ -4,6 +4,7 @@ State = (mem: loc -> abstract value, C: CSet).  Values are symbolic linear expre
 immutable symbols; joins introduce fresh symbols.  Local callees are inlined.
 """
 import json, glob, sys, itertools, collections, os
+import time
 from .lin import *
 
 ISIZE_MAX = (1 << 63) - 1
@@ -169,6 +170,8 @@ class Analyzer:
         self.force_ret = {}
         self.rule_c06a = False
         self.soft_widen_on = bool(os.environ.get("SOFT_WIDEN"))
+        self.rpo_worklist = bool(os.environ.get("E4_RPO"))   # process the worklist in reverse post-order instead of FIFO
+        self.deadline = None   # wall-clock limit (time.time()) for the fixpoint iterations
         self.split_returns = False   # keep the return paths of the outermost analysed body apart (tiny bodies only)
 
     # ------------------------------------------------------------ value helpers
@@ -666,6 +669,18 @@ class Analyzer:
         instate = {}   # (bb, pkey) -> State
         visits = collections.Counter()
         work = collections.deque()
+        rpo = {}
+        if self.rpo_worklist:
+            order = []; seen_ = set()
+            stack_ = [(0, iter(succ[0]))]; seen_.add(0)
+            while stack_:
+                n_, it_ = stack_[-1]
+                for m_ in it_:
+                    if m_ not in seen_ and not blocks[m_]["cleanup"]:
+                        seen_.add(m_); stack_.append((m_, iter(succ[m_]))); break
+                else:
+                    order.append(n_); stack_.pop()
+            rpo = {b_: i_ for i_, b_ in enumerate(reversed(order))}
         PART = ("std::result::Result", "std::option::Option", "std::ops::ControlFlow")
         pre = fr + "._"
         split_paths = self.split_returns and len(self.fn_stack) == 1 and not heads
@@ -709,8 +724,14 @@ class Analyzer:
         self.record = False
         iters = 0
         while work:
-            k = work.popleft()
+            if self.rpo_worklist:
+                k = min(work, key=lambda x: (rpo.get(x[0], 1 << 30), str(x[1])))
+                work.remove(k)
+            else:
+                k = work.popleft()
             iters += 1
+            if self.deadline is not None and time.time() > self.deadline:
+                raise Unmodelled("analysis time budget exceeded")
             if iters > 1500:
                 mk = max(visits, key=lambda x: visits[x]) if visits else None
                 print("BUDGET in", key, "most visited", mk[0] if mk else None, visits[mk] if mk else None, "npart", len(instate))
